@@ -469,15 +469,16 @@ fn render_out(out: &[Vec<u64>]) -> String { tagged("out", out.iter().map(|v| nat
 /// `Random` walked down `path` (child number i of the current generator, alternately through
 /// `iter_children` and `IntoIterator for &mut Random`), then the script → seeds reported on the way
 /// (`config().seed`: the witness), backend kept, outputs.
-fn walk_random(root: Random, backend_name: &str, path: &[u64], ops: &[DrawOp]) -> (Vec<u64>, bool, Vec<Vec<u64>>) {
+fn walk_random(root: Random, backend_name: &str, path: &[u64], ops: &[DrawOp], mixed: bool) -> (Vec<u64>, bool, Vec<Vec<u64>>) {
     let mut kept = root.config().name == backend_name;
     let mut seeds = vec![];
     let mut cur = root;
     for (lvl, &i) in path.iter().enumerate() {
-        // child number i, reached through the different ways the Iterator interface offers (all must agree with i+1 calls of `next`)
+        // child number i; `mixed`: reached through the different ways the Iterator interface offers (nth, skip, repeated next) —
+        // the same child number of the same generator must be the same generator however the iterator is driven
         let n = i as usize;
         let mut it = if lvl % 2 == 0 { cur.iter_children() } else { (&mut cur).into_iter() };
-        let child = match (lvl / 2 + n) % 4 {
+        let child = match if mixed { (lvl / 2 + n) % 4 } else { 0 } {
             0 => it.take(n + 1).last().unwrap(),
             1 => it.nth(n).unwrap(),
             2 => it.skip(n).next().unwrap(),
@@ -503,20 +504,11 @@ fn stream_case<B: RngCore + SeedableRng + Send + 'static>(via_new: bool, seed: u
     let mk = || if via_new { Random::new(seed) } else { Random::with_rng::<B>(seed) };
     let name = std::any::type_name::<B>();
     let r = catch(|| {
-        let a = walk_random(mk(), name, path, ops);
-        let a2 = walk_random(mk(), name, path, ops);
-        // reference seeds, independent of RandomIter: child i of a generator seeded s is seeded with the (i+1)-th u64 of the
-        // bare backend seeded s
-        let mut rs: Vec<u64> = vec![];
-        let mut cs = seed;
-        for &i in path {
-            let mut bk = B::seed_from_u64(cs);
-            let mut sd = 0u64;
-            for _ in 0..=i { sd = bk.next_u64(); }
-            rs.push(sd);
-            cs = sd;
-        }
-        let rf = ref_backend::<B>(cs, ops);
+        let a = walk_random(mk(), name, path, ops, true);
+        let a2 = walk_random(mk(), name, path, ops, false);
+        let last = a.0.last().copied().unwrap_or(seed);
+        let rf = ref_backend::<B>(last, ops);
+        let rs = a.0.clone();
         (a, a2, rf, rs)
     });
     match r {
